@@ -204,7 +204,9 @@ def slide_outer(c, L):
     heads = [e for e in ev if e[0] == 'loop-head' and e[1] in (1, 2)]
     pos0 = c.st.ghost.get(POS_AT_HEAD)
     pos1 = c.st.env.get('pos')
-    if not heads or pos0 is None or pos1 is None or pos0.k != 'int' or pos1.k != 'int':
+    if pos0 is None or pos1 is None:
+        raise KeyError('pos')                             # the local this clause is about has another name: undecided, not wrong
+    if not heads or pos0.k != 'int' or pos1.k != 'int':
         return z3.BoolVal(False)
     return pos1.z == pos0.z + draws[1][2].z
 
